@@ -44,11 +44,44 @@ type Ctx struct {
 
 	mu     sync.Mutex
 	evals  int64
-	hashes map[uint64]struct{}
+	hashes hashSet
 	obs    map[string]int64
 	cells  map[string]struct{}
 	maxes  map[string]float64
 	sample []interface{}
+}
+
+// hashSet is a set of 64-bit identities kept as a slice that is sorted and deduplicated whenever it has doubled
+// (8 bytes per distinct element instead of a map's ~40).
+type hashSet struct {
+	s     []uint64
+	limit int
+}
+
+func (h *hashSet) add(x uint64) {
+	h.s = append(h.s, x)
+	if h.limit == 0 {
+		h.limit = 1 << 16
+	}
+	if len(h.s) >= h.limit {
+		h.all()
+		for h.limit < 2*len(h.s) {
+			h.limit *= 2
+		}
+	}
+}
+
+// all returns the distinct elements, sorted.
+func (h *hashSet) all() []uint64 {
+	sort.Slice(h.s, func(i, j int) bool { return h.s[i] < h.s[j] })
+	out := h.s[:0]
+	for i, x := range h.s {
+		if i == 0 || x != h.s[i-1] {
+			out = append(out, x)
+		}
+	}
+	h.s = out
+	return h.s
 }
 
 // Eval records one evaluation (an execution of the code under test judged by
@@ -59,7 +92,7 @@ func (c *Ctx) Eval(nontrivialIdentity string) {
 	if nontrivialIdentity != "" {
 		h := fnv.New64a()
 		h.Write([]byte(nontrivialIdentity))
-		c.hashes[h.Sum64()] = struct{}{}
+		c.hashes.add(h.Sum64())
 		if len(c.sample) == 0 {
 			// fallback so that a run always shows what a case looks like
 			c.sample = append(c.sample, map[string]string{"case_identity": trim(nontrivialIdentity, 600)})
@@ -390,7 +423,7 @@ func WorkerMain() {
 		}
 	}
 	ctx := &Ctx{Tier: *tier, Seed: *seed,
-		hashes: map[uint64]struct{}{}, obs: map[string]int64{}, cells: map[string]struct{}{}, maxes: map[string]float64{}}
+		obs: map[string]int64{}, cells: map[string]struct{}{}, maxes: map[string]float64{}}
 	start := time.Now()
 	cases, skips := 0, 0
 	runOne := func(i int) {
@@ -438,7 +471,7 @@ func WorkerMain() {
 		if err == nil {
 			w := bufio.NewWriter(hf)
 			var b [8]byte
-			for h := range ctx.hashes {
+			for _, h := range ctx.hashes.all() {
 				binary.LittleEndian.PutUint64(b[:], h)
 				w.Write(b[:])
 			}
@@ -453,7 +486,7 @@ func WorkerMain() {
 	}
 	sort.Strings(s.Cells)
 	if *logpath == "" {
-		s.Obs["distinct_nontrivial"] = int64(len(ctx.hashes))
+		s.Obs["distinct_nontrivial"] = int64(len(ctx.hashes.all()))
 	}
 	b, _ := json.Marshal(s)
 	LogLine("S " + string(b))
